@@ -154,6 +154,18 @@ def check(case):
             diff = X.same(grids[e], X.render(X.T(filtered, e)))
             if diff:
                 raise Bad('encoding-model', f'{e} ({tag}): {diff}\n--- source\n{text}--- {e}\n{out[e]}', enc=e)
+        if inc is None and exc is None and len(kdoc.measure_start_tree_stages) > 0:
+            # the header line of an excerpt is the header line of the whole export in that encoding ('**' + prefix + type),
+            # whenever the excerpt has as many columns
+            for e in encs:
+                try:
+                    ex_ = kp.dumps(kdoc, encoding=K.ENCODINGS[e], from_measure=1)
+                except Exception:  # noqa  (what an excerpt of an arbitrary document may do is C08's matter)
+                    continue
+                h0, h1 = out[e].split('\n')[0].split('\t'), ex_.split('\n')[0].split('\t')
+                evals += 1
+                if len(h0) == len(h1) and h0 != h1:
+                    raise Bad('excerpt-header', f'{e}: the excerpt from measure 1 starts with {h1}, the whole export with {h0}')
         if inc is None and exc is None:
             notes_cols = [(ri, k) for ri, row in enumerate(base) for k, c in enumerate(row) if 'members' in c]
             for ri, k in notes_cols:
